@@ -386,6 +386,10 @@ func renderFor(f Fmt, d *D, rng *rand.Rand) ([]byte, bool) {
 
 // DecodeAny runs the untyped-value reader on a document.
 func (b *Bridge) DecodeAny(t Ty, d *D, excl []string, ignore int) string {
+	return watched(func() string { return b.decodeAny1(t, d, excl, ignore) })
+}
+
+func (b *Bridge) decodeAny1(t Ty, d *D, excl []string, ignore int) string {
 	var outcome string
 	panicked, pv := hx.Recover(func() {
 		var spec restlicodec.PathSpec
